@@ -119,7 +119,7 @@ impl Document {
         }
         for content in &self.after {
             let node = create_document_content_node(xot, content);
-            xot.append(child, node).unwrap();
+            xot.append(document, node).unwrap();
         }
         document
     }
